@@ -1114,6 +1114,7 @@ def _mk_ljoin(qual, variant_, lkey_, rkey_, inner_):
 LeftJoinLoD = _mk_ljoin("ListOfDicts.left_join", "same-named key", "k1", "k1", False)
 LeftJoinLoDRen = _mk_ljoin("ListOfDicts.left_join", "key named differently", "k1", "k2", False)
 InnerJoinLoD = _mk_ljoin("ListOfDicts.inner_join", "same-named key", "k1", "k1", True)
+InnerJoinLoDRen = _mk_ljoin("ListOfDicts.inner_join", "key named differently", "k1", "k2", True)
 
 
 class _SemiAnti(Contract):
@@ -1193,6 +1194,7 @@ class LoDCompositesBounded(Contract):
     run-time contracts and contributes structural obligations only."""
     file, qualname, prop, variant = F, "ListOfDicts.full_join", "C16", "full_join + aggregate: bounded only"
     lemma_only = True
+    always_bounded = True
 
     def setup(self, cx):
         return {"self": None}
